@@ -502,7 +502,7 @@ def m_chars_as_str(ctx):
     if isinstance(it, Iter) and isinstance(it.a, Ref):
         v = ctx.deref(it.a, "src")
         if isinstance(v, Seq):
-            ns = ctx.fresh("rest", I.usize_rng(), D.rng(0, D.hi(S.ivof(v.len))))
+            ns = ctx.fresh("rest", I.len_rng(), D.rng(0, D.hi(S.ivof(v.len))))
             S.add_fact(Lin.var(ns).sub(S.term(v.len)))
             return derived(ctx, Seq("str", ns, v.elem, (), None, v.prov | frozenset([("suffix-of", it.a.cell)])), "rest")
     return ctx.top_ret()
@@ -515,7 +515,7 @@ def m_trim(ctx):
     if len(ctx.args) > 1:
         call_callable(ctx, ctx.args[1], [Scalar(ctx.fresh("tc", (0, 0x10FFFF)))], "trim")
     if isinstance(v, Seq):
-        ns = ctx.fresh("trim", I.usize_rng(), D.rng(0, D.hi(S.ivof(v.len))))
+        ns = ctx.fresh("trim", I.len_rng(), D.rng(0, D.hi(S.ivof(v.len))))
         S.add_fact(Lin.var(ns).sub(S.term(v.len)))
         return derived(ctx, Seq("str", ns, v.elem, (), None, v.prov | (frozenset([("substr-of", ref.cell)]) if ref is not None else frozenset())), "trimmed")
     return ctx.top_ret()
@@ -544,7 +544,7 @@ def vec_elem_ty(ctx):
 
 @M.reg("alloc::vec::Vec::<T>::new", "<alloc::vec::Vec<T> as core::default::Default>::default", "alloc::string::String::new")
 def m_vec_new(ctx):
-    ln = ctx.I.const_sym(0, ctx.I.usize_rng(), ctx.S)
+    ln = ctx.I.const_sym(0, ctx.I.len_rng(), ctx.S)
     return Seq("vec", ln, None, (), None, frozenset())
 
 
@@ -561,7 +561,7 @@ def m_with_capacity(ctx):
         if r:
             paid = True
     ctx.pre("capacity * size_of::<T>() <= isize::MAX", ok or paid, None if (ok or paid) else {"count": D.fmt(S.ivof(n)) if n is not None else "?", "elem_size": esz})
-    ln = I.const_sym(0, I.usize_rng(), S)
+    ln = I.const_sym(0, I.len_rng(), S)
     return Seq("vec", ln, None, (), None, frozenset())
 
 
@@ -572,7 +572,7 @@ def m_vec_push(ctx):
     v = ctx.deref(ref, "vec")
     if isinstance(ref, Ref) and ref.cell is not None and isinstance(v, Seq):
         nl = S.term(v.len).addc(1)
-        ns = ctx.fresh("plen", I.usize_rng(), D.meet(S.eval(nl), D.rng(0, I.max_len())), nl)
+        ns = ctx.fresh("plen", I.len_rng(), D.meet(S.eval(nl), D.rng(0, I.max_len())), nl)
         el = ctx.args[1] if v.elem is None else I.join_vals(S, [v.elem, ctx.args[1]], ctx.site + ("pj",))
         I.write(S, ref.cell, ref.path, Seq(v.kind, ns, el, (), None, v.prov), ctx.site + ("pw",))
         for h in I.hooks:
@@ -596,7 +596,7 @@ def m_box_into_vec(ctx):
     if isinstance(b, BoxU):
         v = S.cells.get(b.cell, BOT)
         if isinstance(v, Arr):
-            ln = I.const_sym(len(v.elems), I.usize_rng(), S)
+            ln = I.const_sym(len(v.elems), I.len_rng(), S)
             el = I.join_vals(S, list(v.elems), ctx.site + ("bv",)) if v.elems else None
             return Seq("vec", ln, el, (), None, frozenset())
     return ctx.top_ret()
